@@ -139,7 +139,7 @@ def small_docs(keys, depth):
 def explore(ctx):
     yaml, yatiml = L.setup()
     rng = ctx.rng
-    cases = []
+    cases = LC.CaseBuffer(ctx)
     import itertools
     from props import c17
     for c in itertools.chain(
